@@ -174,6 +174,22 @@ def layouts() -> List[Tuple[str, Any]]:
     def _(k, lam, e, d, ek, fp):
         return _fn("@foreign_deco\n@icontract.require(lambda {}: {}, description={!r}{})\n@foreign_with_args('x', y=lambda: 1)".format(lam, e, d, ek), fp, k), "f_" + k
 
+    @add("blank-after-the-at-sign")
+    def _(k, lam, e, d, ek, fp):
+        return _fn("@ icontract.require(lambda {}: {}, description={!r}{})".format(lam, e, d, ek), fp, k), "f_" + k
+
+    @add("neighbours-with-blank-and-parentheses-after-the-at-sign")
+    def _(k, lam, e, d, ek, fp):
+        return _fn("@ foreign_deco\n@icontract.require(lambda {}: {}, description={!r}{})\n@(foreign_deco)\n@  foreign_with_args('x')".format(lam, e, d, ek), fp, k), "f_" + k
+
+    @add("tab-after-the-at-sign-multi-line")
+    def _(k, lam, e, d, ek, fp):
+        return _fn("@\ticontract.require(\n    lambda {}: {},\n    description={!r}{})\n@ foreign_deco".format(lam, e, d, ek), fp, k), "f_" + k
+
+    @add("definition-keyword-followed-by-a-line-continuation")
+    def _(k, lam, e, d, ek, fp):
+        return ("@icontract.require(lambda {}: {}, description={!r}{})\ndef\\\n    f_{}({}):\n    return None\n".format(lam, e, d, ek, k, fp)), "f_" + k
+
     @add("stacked-with-error-lambdas-around")
     def _(k, lam, e, d, ek, fp):
         first = lam.split(",")[0].strip()
